@@ -27,7 +27,7 @@ _VERSION_TABLE = """
 CREATE TABLE IF NOT EXISTS schema_migrations (
     version INTEGER PRIMARY KEY,
     name TEXT NOT NULL,
-    applied_at TEXT NOT NULL DEFAULT (datetime('now', 'utc'))
+    applied_at TEXT NOT NULL DEFAULT (datetime('now'))
 )
 """
 
@@ -64,7 +64,7 @@ MIGRATIONS: tuple[Migration, ...] = (
                 execution_id TEXT NOT NULL,
                 claim_key TEXT NOT NULL,
                 stage_id TEXT NOT NULL,
-                claimed_at TEXT NOT NULL DEFAULT (datetime('now', 'utc')),
+                claimed_at TEXT NOT NULL DEFAULT (datetime('now')),
                 PRIMARY KEY (execution_id, claim_key)
             )
             """,
